@@ -46,4 +46,36 @@ def labelOf (st : State) (choices : List (Nat × Cand)) (j : Nat) : Nat :=
 def algoLabels (cfg : Cfg) (st : State) (t : Int) (dsts : List Pos) : Option (List Nat) :=
   (algoChoices cfg st t dsts).map (fun ch => (List.range dsts.length).map (labelOf st ch))
 
+/-! ### whole movies -/
+
+/-- the labels one `next_level` gives: `SubnetOversizeException` (`none`) when a sub-net exceeds
+`MAX_SUB_NET_SIZE` (subnet.py `subnet_linker_*`), else the deterministic step.  (Same convention
+as the driver op `LALGO`.) -/
+-- mirrors trackpy/linking/linking.py:516-522, subnetlinker.py:24-45 (`max_size`: more sources than MAX_SUB_NET_SIZE raises)
+def jobLabels (cfg : Cfg) (st : State) (t : Int) (dsts : List Pos) : Option (List Nat) :=
+  if oversizeB cfg (stepGroups cfg st t dsts) then none else algoLabels cfg st t dsts
+
+/-- state after the first level (`init_level`: every feature starts a trajectory, ids `0 … n-1`) -/
+def firstState (t : Int) (dsts : List Pos) : State :=
+  nextState initCfg { srcs := [], used := [] } t dsts (List.range dsts.length)
+
+/-- the labels of the levels after the first, until the movie ends or a step raises;
+second component: did a step raise -/
+def algoFrom (cfg : Cfg) : State → List (Int × List Pos) → List (List Nat) × Bool
+  | _, [] => ([], false)
+  | st, (t, dsts) :: rest =>
+    match jobLabels cfg st t dsts with
+    | none => ([], true)
+    | some labels =>
+      (labels :: (algoFrom cfg (nextState cfg st t dsts labels) rest).1,
+       (algoFrom cfg (nextState cfg st t dsts labels) rest).2)
+
+/-- the deterministic linker run over a whole movie (first level labelled `0 … n-1`): the levels
+it yields, and whether it then raised (the function the driver op `LALGO` computes) -/
+def algoMovie (cfg : Cfg) : List (Int × List Pos) → List (List Nat) × Bool
+  | [] => ([], false)
+  | (t, dsts) :: rest =>
+    (List.range dsts.length :: (algoFrom cfg (firstState t dsts) rest).1,
+     (algoFrom cfg (firstState t dsts) rest).2)
+
 end TrackpyV.Linker
